@@ -89,7 +89,7 @@ def gen_history(rng, models):
     return ops
 
 
-def run_history(ops, path):
+def run_history(ops, path, ctx=None):
     """execute on the real Profile; returns list of canonical outputs and the final file"""
     from nanite.cli import profile
     from nanite import model
@@ -122,7 +122,21 @@ def run_history(ops, path):
                 got = "unit"
             elif op[0] == "fitparams":
                 pf["model_key"] = op[1]
+                before = json.loads(pathlib.Path(path).read_text())
                 params = pf.get_fit_params()
+                md0 = model.get_init_parms(op[1])
+                for p_ in md0:
+                    ev = before.get(f"fit param {p_} value", md0[p_].value)
+                    md0[p_].value = ev   # (through lmfit, so that bounds apply as in the code)
+                    ev = md0[p_].value
+                    evy = before.get(f"fit param {p_} vary", md0[p_].vary)
+                    if ctx is not None and (params[p_].value != ev or bool(params[p_].vary) != bool(evy)):
+                        ctx.violation(f"fit-params:{p_}",
+                                      f"get_fit_params: {p_} is ({params[p_].value!r}, vary={params[p_].vary}) "
+                                      f"but the stored entries/defaults give ({ev!r}, vary={evy})",
+                                      {"history": [list(map(str, o)) for o in ops],
+                                       "expected": [repr(ev), evy],
+                                       "observed": [repr(params[p_].value), params[p_].vary]})
                 got = "params " + ", ".join(f"{p}={show(params[p].value)}/{str(bool(params[p].vary)).lower()}"
                                             for p in params)
         except KeyError:
@@ -453,7 +467,7 @@ def run(ctx):
         for i in range(nh):
             ops = gen_history(ctx.rng, models)
             path = tdir / f"p{i}.cfg"
-            lines, expect = run_history(ops, path)
+            lines, expect = run_history(ops, path, ctx)
             fresh_read_oracle(ctx, ops, path)
             all_lines += lines
             all_expect += expect
